@@ -74,14 +74,50 @@ class Lower:
                 return 'FNameNotAtBegin'
             if e in (('bin', '!=', ('un', '*', PI), ('un', '*', NI)), ('bin', '!=', ('un', '*', NI), ('un', '*', PI))):
                 return 'FPrevCharDiffers'
-            if e in (('bin', '!=', ('index', NI, ('un', '-', ('num', 1))), COLON), ('bin', '!=', ('un', '*', ('bin', '-', NI, ('num', 1))), COLON)):
+            if e in (('bin', '!=', ('index', NI, ('un', '-', ('num', 1))), COLON), ('bin', '!=', ('un', '*', ('bin', '-', NI, ('num', 1))), COLON),
+                     ('bin', '!=', ('un', '*', ('call', ('id', 'std::prev'), [NI])), COLON)):
                 return 'FBeforeNameNotColon'
         if e in (('bin', '==', ('un', '*', PI), COLON), ('bin', '==', COLON, ('un', '*', PI))):
             return 'FPrevIsColon'
         self.bad('condition not in the subset', e)
 
+    def normalise(self, sts):
+        """spelling-only rewrites of a statement list (each is an identity of C++, checked here on the AST):
+           for (; c; step) BODY  with no continue in BODY      ->  while (c) { BODY; step; }
+           if (c) { ...; break; } REST                          ->  if (c) { ...; break; } else { REST }
+           std::string_view w(A, B); REST                       ->  REST[w := std::string_view(A, B)]   when every use of w in REST comes
+                                                                    before the first assignment to a variable A or B mention"""
+        sts = nonempty(sts)
+        out = []
+        i = 0
+        while i < len(sts):
+            st = sts[i]
+            if st[0] == 'for' and st[1] is None and st[2] is not None and st[3] is not None and not mc._mentions(st[4], 'continue'):
+                st = ('while', st[2], ('block', body_of(st[4]) + [('expr', st[3])]))
+            if (st[0] == 'if' and not st[1] and st[4] is None and i + 1 < len(sts) and body_of(st[3]) and body_of(st[3])[-1] == ('break',)):
+                out.append(('if', False, st[2], st[3], ('block', sts[i + 1:])))
+                break
+            if (st[0] == 'decl' and st[1].replace(' ', '') in ('std::string_view', 'conststd::string_view') and len(st[2]) == 1 and st[2][0][1] is not None
+                    and st[2][0][1][0] == 'ctor' and len(st[2][0][1][1]) == 2):
+                w, args = st[2][0][0], st[2][0][1][1]
+                val = ('call', ('id', 'std::string_view'), list(args))
+                dirty = False
+                ok = True
+                for r in sts[i + 1:]:
+                    uses = "('id', %r)" % w in repr(r)
+                    writes = any(_assigns_var(r, v) for v in _ids_of(args))
+                    if uses and (dirty or writes):
+                        ok = False
+                    dirty = dirty or writes
+                if ok:
+                    sts = sts[:i] + mc._subst_ids(sts[i + 1:], {w: val})
+                    continue
+            out.append(st)
+            i += 1
+        return out
+
     def seq(self, sts):
-        out = [self.s(t) for t in nonempty(sts)]
+        out = [self.s(t) for t in self.normalise(sts)]
         out = [t for t in out if t != 'FSkip']
         if not out:
             return 'FSkip'
@@ -144,6 +180,29 @@ class Lower:
         self.bad('statement not in the subset', st)
 
 
+def _ids_of(n):
+    out = set()
+    if isinstance(n, (list, tuple)):
+        if isinstance(n, tuple) and len(n) == 2 and n[0] == 'id' and isinstance(n[1], str):
+            out.add(n[1])
+        else:
+            for x in n:
+                out |= _ids_of(x)
+    return out
+
+
+def _assigns_var(n, v):
+    if isinstance(n, tuple):
+        if n[:1] == ('assign',) and n[2] == ('id', v):
+            return True
+        if n[:1] in (('un',), ('post',)) and len(n) >= 3 and n[1] in ('++', '--') and n[2] == ('id', v):
+            return True
+        return any(_assigns_var(x, v) for x in n)
+    if isinstance(n, list):
+        return any(_assigns_var(x, v) for x in n)
+    return False
+
+
 def reads(n, name, acc):
     """occurrences of `name` other than as the target of a plain assignment or as a declared name"""
     if isinstance(n, list):
@@ -193,7 +252,7 @@ def main():
                 if not acc:
                     dead.add(st[2][0][0])
         body_text = Lower(loop[1], dead).seq(lb[1:])
-        final_text = Lower(None, set()).s(final)
+        final_text = Lower(None, set()).seq([final])
     except mc.Unsupported as e:
         die(str(e))
     out = ('(* GENERATED by translators/fwdwrite.py from %s - do not edit.\n'
